@@ -391,6 +391,13 @@ def runOp (op : String) (args : List String) : String :=
   | "spec.zone", args => zoneOp true args
   | "codec.pack", typ :: vals => codecPack typ vals
   | "codec.unpack", [typ, rd] => codecUnpack typ rd
+  | "zone.text", [origin, dttl, t] =>
+    match unhex origin, unhex t with
+    | some org, some text =>
+      let d := if dttl == "-" then none else dttl.toNat?
+      let (rs, e) := ZoneText.readZone org d text
+      ((if e then "err " else "ok ") ++ " ".intercalate (rs.map fun r => s!"{hex r.name}:{r.ttl}:{r.cls}:{r.typ}")).trimAscii.toString
+    | _, _ => "bad-op"
   | "lex", [t] => match unhex t with
     | some b =>
       let toks := Lex.lexAll b
